@@ -58,7 +58,14 @@ def run(res, replay=None):
             pool = OPS + (deme_ops(pops) if len(pops) > 1 else [])
             ln = rng.randrange(4, 9) if res.tier == 'quick' else rng.randrange(4, 31)
             ops = [rng.choice(pool) for _ in range(ln)]
-            cases.append({'spec': s, 'ops': ops, 'cache': rng.random() < 0.75, 'parallelize': (i % 5 == 4)})
+            if i % 2 == 1:
+                # state-space level calls before / between the statistics (public API of StateSpace)
+                sp = rng.choice(['lc', 'bc'])
+                bs = sorted({float(t) for d in s['pop_sizes'].values() for t in d})
+                pre = [{'kind': 'ss', 'space': sp, 'what': rng.choice(['S', 'k'])},
+                       {'kind': 'ss', 'space': sp, 'what': 'update_epoch', 't': bs[-1]}, {'kind': 'ss', 'space': sp, 'what': 'S'}]
+                ops = pre + ops
+            cases.append({'spec': s, 'ops': ops, 'cache': (rng.random() < 0.75) if i % 4 != 1 else False, 'parallelize': (i % 5 == 4)})
     outs = C.run_impl_parallel('histories.py', [{'cases': [c]} for c in cases], timeout=2400)
     bodies, keep = [], []
     for i, (c, o) in enumerate(zip(cases, outs)):
@@ -70,6 +77,8 @@ def run(res, replay=None):
         n_epochs = len({e for _, e in r['events_lc']})
         res.count(key, nontrivial=n_epochs >= 2, n=len(c['ops']))
         for j, (op, h, f) in enumerate(zip(c['ops'], r['history'], r['fresh'])):
+            if op['kind'] == 'ss':
+                continue
             if h != f:
                 res.violation('a statistic asked after other queries differs from the answer of a fresh object',
                               {'case': c, 'position': j, 'op': op, 'after_history': h, 'fresh': f})
@@ -84,6 +93,8 @@ def run(res, replay=None):
         e0 = eid(r['initial_lc_epoch'])
         ops_coq = []
         for kind, e in r['events_lc']:
+            if kind == 'T':
+                continue
             ops_coq.append(f'OUpdate nat {eid(e)}%nat' if kind == 'U' else f'OQuery nat [{eid(e)}%nat]')
         flag = 'true' if r['final_lc']['flag'] else 'false'
         bodies.append(f'Eval vm_compute in (show (fst (st (fresh nat nat nat {e0}%nat {flag}) ' + C.coqlist(ops_coq) + '))).\n')
@@ -97,11 +108,15 @@ def run(res, replay=None):
             for (c, r, ids), v in zip(keep, vals):
                 ep, hasS, keys = C.parse_term(v)
                 f = r['final_lc']
-                obs = (ids[f['epoch']], f['has_S'], [ids[k] for k in f['cache_keys']])
+                obs = (ids[f['epoch']], f['has_S'], sorted(ids[k] for k in f['cache_keys']))
+                # the `states` property also stores the transitions it computed under the epoch current at that moment
+                # (an insertion that preserves the invariant): those keys are added to the model's dictionary
+                extra = {ids[e] for kind, e in r['events_lc'] if kind == 'T' and e in ids} if f['flag'] else set()
+                keys = sorted(set(keys) | extra)
                 if (ep, hasS, list(keys)) != obs:
                     res.violation('state of the shared state space differs from the cache model after the same events',
                                   {'case': c, 'model': [ep, hasS, list(keys)], 'observed': list(obs)}, concrete=False)
-            res.sample({'spec': keep[0][0]['spec'], 'ops': [o.get('path') or o['kind'] for o in keep[0][0]['ops']],
+            res.sample({'spec': keep[0][0]['spec'], 'ops': [o.get('path') or o.get('what') or o['kind'] for o in keep[0][0]['ops']],
                         'events': len(keep[0][1]['events_lc'])})
     # parameter sequences through one Inference object (shared state spaces)
     inf_cases = [{'n': rng.choice([3, 4]), 'params': [rng.choice([0.25, 0.5, 1.0, 2.0, 4.0]) for _ in range(5)],
